@@ -45,15 +45,16 @@ func register(e *Engine) { engines[e.Name] = e }
 
 // Gen is the generation context.
 type Gen struct {
-	Engine string
-	Prop   string
-	Tier   string
-	Seed   int64
-	Rng    *rand.Rand
-	w      *bufio.Writer
-	N      int
-	Stats  map[string]int
-	sample []string
+	Engine   string
+	Prop     string
+	Tier     string
+	Seed     int64
+	Rng      *rand.Rand
+	w        *bufio.Writer
+	N        int
+	Stats    map[string]int
+	sample   []string
+	required []string
 }
 
 // Op emits one op line for the current engine; class is counted in the distribution.
@@ -74,6 +75,19 @@ func (g *Gen) Reset() {
 }
 
 func (g *Gen) Quick() bool { return g.Tier != "thorough" }
+
+// Covered reports whether every op class the property names as required (VERIF_REQUIRED, a comma
+// separated list passed by ./check from props/Cxx.json) has been produced at least once. Generators of
+// randomised histories keep going (within a bounded multiple of their budget) until it holds, so that
+// the coverage guard never depends on the luck of a seed.
+func (g *Gen) Covered() bool {
+	for _, c := range g.required {
+		if c != "" && g.Stats[c] == 0 {
+			return false
+		}
+	}
+	return true
+}
 
 // Scale returns q in the quick tier and t in the thorough tier.
 func (g *Gen) Scale(q, t int) int {
@@ -114,7 +128,7 @@ func main() {
 			panic(err)
 		}
 		g := &Gen{Engine: *eng, Prop: *prop, Tier: *tier, Seed: *seed, Rng: rand.New(rand.NewSource(*seed)),
-			w: bufio.NewWriterSize(f, 1<<20), Stats: map[string]int{}}
+			w: bufio.NewWriterSize(f, 1<<20), Stats: map[string]int{}, required: strings.Split(os.Getenv("VERIF_REQUIRED"), ",")}
 		e.Gen(g)
 		g.w.Flush()
 		f.Close()
